@@ -254,10 +254,27 @@ func (g *vcgen) varAt(name string, b *ssa.BasicBlock, phiVals map[*ssa.Phi]strin
 			return cval{term: phiVals[phi], typ: phi.Type(), sort: g.s.sortOf(phi.Type())}, true
 		}
 	}
-	// nearest dominating DebugRef
+	// phis of enclosing loop headers (compiler-named loop counters such as "rangeindex")
 	for d := b.Idom(); d != nil; d = d.Idom() {
-		for i := len(d.Instrs) - 1; i >= 0; i-- {
-			dr, ok := d.Instrs[i].(*ssa.DebugRef)
+		for _, ins := range d.Instrs {
+			phi, ok := ins.(*ssa.Phi)
+			if !ok {
+				break
+			}
+			if phi.Comment == name {
+				if t, ok := g.vals[phi]; ok {
+					return cval{term: t, typ: phi.Type(), sort: g.s.sortOf(phi.Type())}, true
+				}
+			}
+		}
+	}
+	// DebugRefs anywhere in the function whose value is defined in a block dominating b
+	// (the DebugRef at a declaration carries the zero constant; uses carry the real value)
+	var best ssa.Value
+	bestAddr := false
+	for _, blk := range g.fn.Blocks {
+		for _, ins := range blk.Instrs {
+			dr, ok := ins.(*ssa.DebugRef)
 			if !ok {
 				continue
 			}
@@ -265,12 +282,31 @@ func (g *vcgen) varAt(name string, b *ssa.BasicBlock, phiVals map[*ssa.Phi]strin
 			if !ok || id.Name != name {
 				continue
 			}
-			if dr.IsAddr {
-				pt := dr.X.Type().Underlying().(*types.Pointer)
-				return cval{term: g.loadPtr(g.st, g.val(dr.X), pt.Elem()), typ: pt.Elem(), sort: g.s.sortOf(pt.Elem())}, true
+			if _, isConst := dr.X.(*ssa.Const); isConst {
+				continue
 			}
-			return cval{term: g.val(dr.X), typ: dr.X.Type(), sort: g.s.sortOf(dr.X.Type())}, true
+			if def, ok := dr.X.(ssa.Instruction); ok {
+				if def.Block() != b && !g.dom[b][def.Block()] {
+					continue
+				}
+				if def.Block() == b {
+					continue // defined inside the header itself: not available at its head
+				}
+			}
+			if _, known := g.vals[dr.X]; !known {
+				if _, isParam := dr.X.(*ssa.Parameter); !isParam {
+					continue
+				}
+			}
+			best, bestAddr = dr.X, dr.IsAddr
 		}
+	}
+	if best != nil {
+		if bestAddr {
+			pt := best.Type().Underlying().(*types.Pointer)
+			return cval{term: g.loadPtr(g.st, g.val(best), pt.Elem()), typ: pt.Elem(), sort: g.s.sortOf(pt.Elem())}, true
+		}
+		return cval{term: g.val(best), typ: best.Type(), sort: g.s.sortOf(best.Type())}, true
 	}
 	return cval{}, false
 }
@@ -555,6 +591,22 @@ func (g *vcgen) loopHead(h *ssa.BasicBlock, phiInit map[*ssa.Phi]string) {
 	sort.Strings(names)
 	for _, n := range names {
 		g.stateVar(n, eff.Vars[n](g.s))
+		if locs, precise := eff.Locs[n]; precise && !eff.Whole[n] && g.locsLoopInvariant(h, locs) && strings.HasPrefix(g.varSort[n], "(Array Int ") {
+			// written only at objects fixed before the loop: everything else keeps its value
+			cur := g.get(g.st, n)
+			seen := map[string]bool{}
+			for _, lv := range locs {
+				t := g.val(lv)
+				if seen[t] {
+					continue
+				}
+				seen[t] = true
+				fv := g.freshConst("loopw", arrayElemSort(g.varSort[n]))
+				cur = fmt.Sprintf("(store %s %s %s)", cur, t, fv)
+			}
+			g.set(n, cur)
+			continue
+		}
 		g.havocNamed(n)
 	}
 	// old()-snapshots reset inside the loop (monitor re-acquisition): arbitrary at the loop head
@@ -673,4 +725,24 @@ func (g *vcgen) storesToType(t types.Type) bool {
 		}
 	}
 	return false
+}
+
+// locsLoopInvariant: every location value is defined outside the loop (parameter, constant or in a dominating block)
+func (g *vcgen) locsLoopInvariant(h *ssa.BasicBlock, locs []ssa.Value) bool {
+	for _, v := range locs {
+		switch x := v.(type) {
+		case *ssa.Parameter, *ssa.FreeVar, *ssa.Const, *ssa.Global:
+			continue
+		case ssa.Instruction:
+			if g.loopBody[h][x.Block()] {
+				return false
+			}
+			if _, ok := g.vals[v]; !ok {
+				return false
+			}
+		default:
+			return false
+		}
+	}
+	return true
 }
